@@ -248,3 +248,17 @@ CHECKS["C21"] = dict(
     level_note=E1_NOTE + " Threshold shares are built with the same construction as BLS0GenerateThresholdKeyShares but derived coefficients (the library's CSPRNG would make ids irreproducible).",
     parts=[dict(pkg=ZCHK, run="^TestC21_MultisigExecutesOnce$", quick=200, thorough=20000, floor=5)],
 )
+CHECKS["C16"] = dict(
+    level="exploration", engine="E1",
+    technique="stateful property-based testing on the full-chain simulator with an exact rational schedule oracle and amounts beyond 2^53",
+    level_text="Vesting pools created through real transactions (amounts incl. values where float64 is inexact, future starts, min/max durations) are driven by generated trigger / unlock / stop / delete operations at generated times (exactly start, exactly expiry, after); after every operation each destination's vested amount must be monotone, <= its amount and <= the exact linear schedule plus a stated float tolerance, the pool must cover the unvested remainder, and at expiry the destination must be able to collect exactly its amount.",
+    level_note=E1_NOTE,
+    parts=[dict(pkg=MISC, run="^TestC16_VestingSchedule$", quick=200, thorough=20000, floor=10)],
+)
+CHECKS["C48"] = dict(
+    level="exploration", engine="E1",
+    technique="stateful property-based testing on the full-chain simulator over all six settings functions with generated update maps (valid / unknown / immutable / unparsable / extreme) and the contracts' own validate() as part of the oracle",
+    level_text="For every settings function, generated sequences of update maps sent by the owner or a stranger (optionally after the demeter fork) are executed; the oracle works on the contract's own rendering of its active settings: identical after a refused or foreign update, only named keys differ after an accepted one, no invalid entry may be part of an accepted map, and the contract's own validate() must still accept the configuration in force.",
+    level_note=E1_NOTE + " Names, types and valid examples come from the contracts' own settings tables (simmisc.Specs).",
+    parts=[dict(pkg=MISC, run="^TestC48_GovernanceSettings$", quick=300, thorough=30000, floor=10)],
+)
